@@ -1251,10 +1251,28 @@ Ltac exec_paths :=
   | |- context [match sc_validate ?sc with _ => _ end] => destruct (sc_validate sc) eqn:?
   end; cbn [negb fst snd r_log r_success r_phase].
 
+Lemma acquire_all_active fl o reqs : forall s k s' out,
+  acquire_all fl s o k reqs = (s', out) -> active s' = active s.
+Proof.
+  induction reqs as [|r reqs IH]; intros s k s' out H; simpl in H.
+  - inversion H; auto.
+  - destruct (acquire fl s o r) as [s1 res] eqn:Ha.
+    pose proof (acquire_active _ _ _ _ _ _ Ha) as A.
+    destruct res as [lr| |]; try (inversion H; subst; auto; fail).
+    destruct lr; try (inversion H; subst; auto; fail); rewrite (IH _ _ _ _ H); auto.
+Qed.
+
+Lemma exec_begin_active s o p sc s1 b0 : exec_begin s o p sc = (s1, b0) -> In o (active s1).
+Proof.
+  unfold exec_begin. intros H. destruct (advance_frame _ _ _ _ _ H) as (A & _).
+  rewrite A. apply start_op_active.
+Qed.
+
 Lemma work_once_holding_all_proof fl w s o p reqs sc :
   let res := snd (exec_op fl w s o p reqs sc) in
   (length (filter is_work (r_log res)) <= 1)%nat /\
-  (forall sw, In (EvWork sw) (r_log res) -> forall r, In r reqs -> owner sw r = Some o).
+  (forall sw, In (EvWork sw) (r_log res) ->
+     In o (active sw) /\ forall r, In r reqs -> owner sw r = Some o).
 Proof.
   cbv zeta. exec_unfold. exec_paths;
     repeat rewrite ?filter_app, ?app_length; cbn [filter is_work length app];
@@ -1270,12 +1288,15 @@ Proof.
     end.
   (* the remaining cases: work_fn was invoked in state [sw] *)
   all: match goal with
-       | Ha : acquire_all _ _ _ _ _ = (?s2, AllAcquired), Hv : advance (upd_ctx ?s2 _ _) _ _ = (?sw, _)
-         |- forall r, In r _ -> owner ?sw r = _ =>
+       | Hb : exec_begin _ _ _ _ = (?s1, _),
+         Ha : acquire_all _ ?s1 _ _ _ = (?s2, AllAcquired), Hv : advance (upd_ctx ?s2 _ _) _ _ = (?sw, _)
+         |- In _ (active ?sw) /\ _ =>
            destruct (acquire_all_owns _ _ _ _ _ _ Ha) as (Own & _);
-           destruct (advance_frame _ _ _ _ _ Hv) as (_ & L & _);
-           destruct (upd_ctx_frame s2 o c_set_racq) as (_ & L2 & _);
-           intros r Hr; rewrite owner_def, L, L2; apply (Own r Hr)
+           destruct (advance_frame _ _ _ _ _ Hv) as (A & L & _);
+           destruct (upd_ctx_frame s2 o c_set_racq) as (A2 & L2 & _);
+           split;
+           [ rewrite A, A2, (acquire_all_active _ _ _ _ _ _ _ Ha); apply (exec_begin_active _ _ _ _ _ _ Hb)
+           | intros r Hr; rewrite owner_def, L, L2; apply (Own r Hr) ]
        end.
 Qed.
 
@@ -1414,3 +1435,50 @@ Qed.
 
 Lemma reachable_wf_proof res w ops : WF (fst (run_ops current w (init_state res) ops)).
 Proof. apply run_ops_wf, wf_init. Qed.
+
+(* ------------------------------------------------------------------ *)
+(* ending an operation touches only the locks it owns at that moment     *)
+
+Lemma end_own_locks_proof w s a o :
+  WF s -> ends_op a o ->
+  forall r, owner s r <> Some o -> get_lock (fst (fstep current w s a)) r = get_lock s r.
+Proof.
+  intros W E r N.
+  destruct E as [->|[->| ->]]; cbn [fstep];
+    (destruct (is_active s o); simpl; auto;
+     destruct (finish_spec s o W) as (_ & _ & _ & _ & L & _); now apply L).
+Qed.
+
+Lemma abort_fold_frame (L : list Z) : forall s r,
+  WF s -> (forall v, In v L -> owner s r <> Some v) ->
+  get_lock (fold_left (abort_if_active current) L s) r = get_lock s r.
+Proof.
+  induction L as [|o L IH]; intros s r W N; simpl; auto.
+  destruct (abort_if_active_spec s o W) as (W1 & _).
+  assert (E1 : get_lock (abort_if_active current s o) r = get_lock s r).
+  { unfold abort_if_active. destruct (is_active s o); auto.
+    destruct (finish_spec s o W) as (_ & _ & _ & _ & Lk & _). apply Lk. apply N. simpl. auto. }
+  rewrite IH; auto. intros v Hv. rewrite owner_def, E1, <- owner_def. apply N. simpl. auto.
+Qed.
+
+Lemma watchdog_own_locks_proof w s :
+  WF s ->
+  forall r, (forall v why, In (v, why) (snd (wd_execute current w s)) -> owner s r <> Some v) ->
+  get_lock (fst (wd_execute current w s)) r = get_lock s r.
+Proof.
+  intros W r N. unfold wd_execute in *. simpl in *. rewrite fold_abort_events.
+  apply abort_fold_frame; auto. intros v Hv. apply in_map_iff in Hv as ([v0 why] & <- & Hin).
+  eapply N; eauto.
+Qed.
+
+(* execute_operation ends by complete/abort of a well-formed state [sX]; only
+   locks owned by the operation in [sX] change *)
+Lemma exec_end_own_locks_proof w s o p reqs sc :
+  WF s -> get_ctx s o = None ->
+  exists sX, WF sX /\ fst (exec_op current w s o p reqs sc) = finish current sX o /\
+    forall r, owner sX r <> Some o -> get_lock (fst (exec_op current w s o p reqs sc)) r = get_lock sX r.
+Proof.
+  intros W F. destruct (exec_op_ends_wf w s o p reqs sc W F) as (sX & WX & E).
+  exists sX. split; auto. split; auto. rewrite E.
+  destruct (finish_spec sX o WX) as (_ & _ & _ & _ & L & _). exact L.
+Qed.
